@@ -180,6 +180,17 @@ pub(crate) fn get_gdef_classes(
     })
 }
 
+/// Round a kerning/anchor value or delta to the i16 it is stored as, rejecting
+/// values that would otherwise be silently clamped.
+fn round_to_i16(value: f64) -> Result<i16, DeltaError> {
+    let rounded: f64 = value.ot_round();
+    if (i16::MIN as f64..=i16::MAX as f64).contains(&rounded) {
+        Ok(rounded as i16)
+    } else {
+        Err(DeltaError::OutOfRange(value))
+    }
+}
+
 //NOTE: this is basically identical to the same method on FeaVariationInfo,
 //except they have slightly different inputs?
 pub(crate) fn resolve_variable_metric<'a>(
@@ -221,14 +232,15 @@ pub(crate) fn resolve_variable_metric<'a>(
         })
         .collect();
 
-    let default_value: i16 = raw_deltas
-        .iter()
-        .filter_map(|(region, value)| {
-            let scaler = region.scalar_at(&var_model.default).into_inner();
-            (scaler != 0.0).then_some(*value * scaler)
-        })
-        .sum::<f64>()
-        .ot_round();
+    let default_value: i16 = round_to_i16(
+        raw_deltas
+            .iter()
+            .filter_map(|(region, value)| {
+                let scaler = region.scalar_at(&var_model.default).into_inner();
+                (scaler != 0.0).then_some(*value * scaler)
+            })
+            .sum::<f64>(),
+    )?;
 
     let mut deltas = Vec::with_capacity(raw_deltas.len());
     for (region, value) in raw_deltas.iter().filter(|(r, _)| !r.is_default()) {
@@ -243,7 +255,7 @@ pub(crate) fn resolve_variable_metric<'a>(
         }
         deltas.push((
             write_fonts::tables::variations::VariationRegion { region_axes },
-            value.ot_round(),
+            round_to_i16(*value)?,
         ));
     }
 
@@ -349,21 +361,23 @@ impl VariationInfo for FeaVariationInfo<'_> {
             .collect();
 
         // Compute the default on the unrounded deltas
-        let default_value = deltas
-            .iter()
-            .filter_map(|(region, value)| {
-                let scaler = region.scalar_at(&var_model.default).into_inner();
-                (scaler != 0.0).then_some(*value * scaler)
-            })
-            .sum::<f64>()
-            .ot_round();
+        let default_value = round_to_i16(
+            deltas
+                .iter()
+                .filter_map(|(region, value)| {
+                    let scaler = region.scalar_at(&var_model.default).into_inner();
+                    (scaler != 0.0).then_some(*value * scaler)
+                })
+                .sum::<f64>(),
+        )
+        .map_err(Error::DeltaError)?;
 
         // Produce the desired delta type
         let mut fears_deltas = Vec::with_capacity(deltas.len());
         for (region, value) in deltas.iter().filter(|(r, _)| !r.is_default()) {
             fears_deltas.push((
                 region.to_write_fonts_variation_region(&self.static_metadata.axes),
-                value.ot_round(),
+                round_to_i16(*value).map_err(Error::DeltaError)?,
             ));
         }
 
